@@ -168,7 +168,11 @@ pub(crate) fn upconvert_ufov1_robofab_data(
         let order: Vec<String> = if let Some(feature_order) = lib_data.feature_order {
             feature_order
         } else {
-            features_split.keys().cloned().collect::<Vec<String>>()
+            // No explicit order: use the sorted feature tags (as defcon does), not the
+            // iteration order of the hash map, which differs from load to load.
+            let mut keys = features_split.keys().cloned().collect::<Vec<String>>();
+            keys.sort();
+            keys
         };
 
         features.push('\n');
